@@ -32,6 +32,7 @@ import (
 
 	"github.com/ozontech/seq-db/logger"
 	pb "github.com/ozontech/seq-db/pkg/storeapi"
+	"github.com/ozontech/seq-db/proxy/search"
 	"github.com/ozontech/seq-db/seq"
 
 	"verifharness/env"
@@ -216,8 +217,100 @@ type corpus struct {
 	bodies map[seq.ID]string
 }
 
+// next numbers the stored documents of the run (MID / RID and the rotation of the palette).
+var next = uint64(1)
+
+// storeCorpus stores the documents of a case (one bulk) as corpus number idx: the abstract names are
+// concretised inside their class, the values come from the palette.
+func storeCorpus(e *env.Env, ing *search.Ingestor, pp env.ProxyParams, idx int, cls [][2]string, docs [][]string) *corpus {
+	cp := &corpus{idx: idx, concr: map[string]string{}, bodies: map[seq.ID]string{}}
+	seen := map[string]string{}
+	for _, nc := range cls {
+		k := concrete(nc[0], nc[1], cp.idx)
+		if other, dup := seen[k]; dup {
+			emit(map[string]any{"infra": fmt.Sprintf("names %q and %q concretise to the same key %q", other, nc[0], k)})
+			os.Exit(3)
+		}
+		seen[k] = nc[0]
+		cp.concr[nc[0]] = k
+	}
+	var bulk []env.Doc
+	for di, fields := range docs {
+		fs := make([]string, 0, len(fields))
+		for _, f := range fields {
+			fs = append(fs, cp.concr[f])
+		}
+		sort.Strings(fs)
+		// field order inside the document varies with the seed
+		if (*seed+di)%2 == 1 {
+			for l, r := 0, len(fs)-1; l < r; l, r = l+1, r-1 {
+				fs[l], fs[r] = fs[r], fs[l]
+			}
+		}
+		var b strings.Builder
+		b.WriteString("{")
+		for fi, f := range fs {
+			if fi > 0 {
+				b.WriteString(",")
+			}
+			val := palette[(*seed*7+int(next)*3+fi*5)%len(palette)]
+			// every third key is spelled with a JSON escape (a is "a")
+			fmt.Fprintf(&b, "%s:%s", jsonKey(f, (*seed+int(next)+fi)%3 == 0), val)
+		}
+		b.WriteString("}")
+		d := env.Doc{MID: 1000 + next, RID: next, Tok: map[string][]string{"k": {fmt.Sprintf("c%d", cp.idx)}}, Body: b.String()}
+		next++
+		bulk = append(bulk, d)
+		cp.ids = append(cp.ids, d.ID())
+		cp.bodies[d.ID()] = d.Body
+	}
+	if err := e.Bulk(bulk); err != nil {
+		emit(map[string]any{"infra": "bulk: " + err.Error()})
+		os.Exit(3)
+	}
+	e.WaitIdle()
+	if cp.idx%2 == 1 {
+		e.Seal()
+	}
+	// the reference for "set and order of returned documents": a search without a pipe
+	q0, _, err0 := env.ProxySearch(ing, fmt.Sprintf("k:c%d", cp.idx), pp)
+	if err0 != nil || len(q0.IDs) != len(cp.ids) {
+		emit(map[string]any{"infra": fmt.Sprintf("search without a pipe: %v (%d ids)", err0, len(q0.IDs))})
+		os.Exit(3)
+	}
+	for _, id := range q0.IDs {
+		cp.order = append(cp.order, id.ID)
+	}
+	return cp
+}
+
+// diffDoc compares a returned document with the projection of the stored document `id` on the (abstract)
+// names `exp` the specification requires; "" = as required.
+func diffDoc(cp *corpus, id seq.ID, exp []string, doc []byte) (what string, wantNames []string) {
+	orig, _ := decode([]byte(cp.bodies[id]))
+	om := orig.(map[string]any)
+	want := map[string]any{}
+	for _, f := range exp {
+		want[cp.concr[f]] = om[cp.concr[f]]
+		wantNames = append(wantNames, cp.concr[f])
+	}
+	got, err := decode(doc)
+	if err != nil {
+		return "result is not valid JSON: " + err.Error(), wantNames
+	}
+	gm, isObj := got.(map[string]any)
+	if !isObj {
+		return "result is not a JSON object", wantNames
+	}
+	if !equal(gm, want) {
+		return "projection differs", wantNames
+	}
+	return "", wantNames
+}
+
 func main() {
 	progress := flag.Bool("progress", false, "")
+	hist := flag.Bool("hist", false, "replay histories of fetches (ProjectPool.tla) instead of single requests (ProjectCases.tla)")
 	noAPI := flag.Bool("noapi", false, "skip the public proxy API paths")
 	flag.Int("workers", 1, "")
 	verbose := flag.Bool("v", false, "keep the log of the real code")
@@ -235,6 +328,10 @@ func main() {
 	}
 	defer e.Close()
 	ing := env.NewProxy([][]*env.Env{{e}})
+	if *hist {
+		runHist(e, ing, sc, *progress)
+		return
+	}
 	var api *apiEnv
 	if !*noAPI {
 		api, err = newAPIEnv(e)
@@ -244,7 +341,6 @@ func main() {
 		}
 	}
 	stored := map[string]*corpus{}
-	next := uint64(1)
 	n, evals, nontriv := 0, 0, 0
 	pp := env.ProxyParams{Params: env.Params{From: 0, To: 1 << 40, Order: "desc"}, Size: 10, Fetch: true}
 	for sc.Scan() {
@@ -264,64 +360,7 @@ func main() {
 		key := string(kb)
 		cp, ok := stored[key]
 		if !ok {
-			cp = &corpus{idx: len(stored), concr: map[string]string{}, bodies: map[seq.ID]string{}}
-			seen := map[string]string{}
-			for _, nc := range c.Cls {
-				k := concrete(nc[0], nc[1], cp.idx)
-				if other, dup := seen[k]; dup {
-					emit(map[string]any{"infra": fmt.Sprintf("names %q and %q concretise to the same key %q", other, nc[0], k)})
-					os.Exit(3)
-				}
-				seen[k] = nc[0]
-				cp.concr[nc[0]] = k
-			}
-			var bulk []env.Doc
-			for di, fields := range c.Docs {
-				fs := make([]string, 0, len(fields))
-				for _, f := range fields {
-					fs = append(fs, cp.concr[f])
-				}
-				sort.Strings(fs)
-				// field order inside the document varies with the seed
-				if (*seed+di)%2 == 1 {
-					for l, r := 0, len(fs)-1; l < r; l, r = l+1, r-1 {
-						fs[l], fs[r] = fs[r], fs[l]
-					}
-				}
-				var b strings.Builder
-				b.WriteString("{")
-				for fi, f := range fs {
-					if fi > 0 {
-						b.WriteString(",")
-					}
-					val := palette[(*seed*7+int(next)*3+fi*5)%len(palette)]
-					// every third key is spelled with a JSON escape (a is "a")
-					fmt.Fprintf(&b, "%s:%s", jsonKey(f, (*seed+int(next)+fi)%3 == 0), val)
-				}
-				b.WriteString("}")
-				d := env.Doc{MID: 1000 + next, RID: next, Tok: map[string][]string{"k": {fmt.Sprintf("c%d", cp.idx)}}, Body: b.String()}
-				next++
-				bulk = append(bulk, d)
-				cp.ids = append(cp.ids, d.ID())
-				cp.bodies[d.ID()] = d.Body
-			}
-			if err := e.Bulk(bulk); err != nil {
-				emit(map[string]any{"infra": "bulk: " + err.Error()})
-				os.Exit(3)
-			}
-			e.WaitIdle()
-			if cp.idx%2 == 1 {
-				e.Seal()
-			}
-			// the reference for "set and order of returned documents": a search without a pipe
-			q0, _, err0 := env.ProxySearch(ing, fmt.Sprintf("k:c%d", cp.idx), pp)
-			if err0 != nil || len(q0.IDs) != len(cp.ids) {
-				emit(map[string]any{"infra": fmt.Sprintf("search without a pipe: %v (%d ids)", err0, len(q0.IDs))})
-				os.Exit(3)
-			}
-			for _, id := range q0.IDs {
-				cp.order = append(cp.order, id.ID)
-			}
+			cp = storeCorpus(e, ing, pp, len(stored), c.Cls, c.Docs)
 			stored[key] = cp
 		}
 		ids := cp.ids
@@ -346,30 +385,8 @@ func main() {
 					}
 					continue
 				}
-				orig, _ := decode([]byte(cp.bodies[ids[i]]))
-				om := orig.(map[string]any)
-				want := map[string]any{}
-				var wantNames []string
-				for _, f := range c.Exp[i] {
-					want[cp.concr[f]] = om[cp.concr[f]]
-					wantNames = append(wantNames, cp.concr[f])
-				}
-				rep := map[string]any{"n": n, "path": path, "doc": string(docs[i]), "orig": cp.bodies[ids[i]], "fields": fields, "allow": c.Flt.Allow, "want_fields": wantNames}
-				got, err := decode(docs[i])
-				if err != nil {
-					rep["what"] = "result is not valid JSON: " + err.Error()
-					emit(rep)
-					return
-				}
-				gm, isObj := got.(map[string]any)
-				if !isObj {
-					rep["what"] = "result is not a JSON object"
-					emit(rep)
-					return
-				}
-				if !equal(gm, want) {
-					rep["what"] = "projection differs"
-					emit(rep)
+				if what, wantNames := diffDoc(cp, ids[i], c.Exp[i], docs[i]); what != "" {
+					emit(map[string]any{"n": n, "path": path, "what": what, "doc": string(docs[i]), "orig": cp.bodies[ids[i]], "fields": fields, "allow": c.Flt.Allow, "want_fields": wantNames})
 					return
 				}
 			}
